@@ -83,7 +83,22 @@ pub fn run_val_family(ctx: &Ctx, fam: &ValFamily) -> Stats {
                 for cls in 0..=ncls {
                     let positions: Vec<usize> = if cls == ncls { vec![0] } else { (0..len.max(1)).collect() };
                     for pos in positions {
-                        let second: Vec<Option<(usize, usize)>> = if fam.two_defects && cls < ncls && len >= 2 { vec![None, Some(((cls * 7 + pos) % ncls, (pos * 5 + 3) % len))] } else { vec![None] };
+                        // a second planted unit: at a pseudo-random position, and at stride-relevant
+                        // distances (same stride, exactly 16 / 32 / 64 after the first)
+                        let second: Vec<Option<(usize, usize)>> = if fam.two_defects && cls < ncls && len >= 2 {
+                            let c2 = (cls * 7 + pos) % ncls;
+                            let mut v = vec![None, Some((c2, (pos * 5 + 3) % len))];
+                            if fk == 0 {
+                                for d in [1usize, 5, 16, 32, 64] {
+                                    if pos + d < len && (pos + d) % 3 == cls % 3 {
+                                        v.push(Some((c2, pos + d)));
+                                    }
+                                }
+                            }
+                            v
+                        } else {
+                            vec![None]
+                        };
                         for sec in second {
                             let (mut s8, mut s16) = (vec![], vec![]);
                             if f.is_u16() {
